@@ -976,6 +976,18 @@ func (w *_assembler) AssignString(s string) error {
 	if err := compatibleKind(w.schemaType, datamodel.Kind_String); err != nil {
 		return err
 	}
+	if enum, ok := w.schemaType.(*schema.TypeEnum); ok {
+		known := false
+		for _, member := range enum.Members() {
+			if member == s {
+				known = true
+				break
+			}
+		}
+		if !known {
+			return fmt.Errorf("AssignString: %q is not a valid member of enum %s", s, enum.Name())
+		}
+	}
 	customConverter := w.cfg.converterFor(w.schemaType.Name(), w.val)
 	_, isAny := w.schemaType.(*schema.TypeAny)
 	if customConverter != nil {
